@@ -1,5 +1,7 @@
 CONSTANTS
   Dev = {}
+  Mut = {}
+  AdvOn = {"ANS", "DS", "DNSKEY"}
   AnchorForms = {"dnskey"}
   Cfgs = {"default"}
   MaxRuns = 1
